@@ -10,8 +10,8 @@
 #include "mcx/arena.h"
 using namespace Avoid; using namespace std;
 static mcx::Ctx ctx;
-struct Cfg { int opt, reg; int second; int obstacle; int heap; int mixed = 0; };   // second: 0 nothing, 1 a transaction that moves a terminal, 2 a SECOND full rerouting in the next transaction, 3 all but two terminal connectors deleted and the junction removed with removeJunctionAndMergeConnectors()   // mixed: every other connector is created junction -> terminal instead of terminal -> junction
-static string cfg_str(const Cfg &c) { return mcx::fmt("improve=%s register=%s second_transaction=%d obstacle=%d heap=%s", c.opt == 0 ? "off" : c.opt == 1 ? "moving" : "moving+adding+deleting", c.reg == 0 ? "none" : c.reg == 1 ? "by junction" : "by terminal list", c.second, c.obstacle, c.heap == 0 ? "system" : c.heap == 1 ? "ascending" : "descending") + (c.mixed ? " connectors in mixed orientation" : ""); }
+struct Cfg { int opt, reg; int second; int obstacle; int heap; int mixed = 0; int chain = 0; };   // second: 0 nothing, 1 a transaction that moves a terminal, 2 a SECOND full rerouting in the next transaction, 3 all but two terminal connectors deleted and the junction removed with removeJunctionAndMergeConnectors()   // mixed: every other connector is created junction -> terminal instead of terminal -> junction
+static string cfg_str(const Cfg &c) { return mcx::fmt("improve=%s register=%s second_transaction=%d obstacle=%d heap=%s", c.opt == 0 ? "off" : c.opt == 1 ? "moving" : "moving+adding+deleting", c.reg == 0 ? "none" : c.reg == 1 ? "by junction" : "by terminal list", c.second, c.obstacle, c.heap == 0 ? "system" : c.heap == 1 ? "ascending" : "descending") + (c.mixed ? " connectors in mixed orientation" : "") + (c.chain ? " last terminal attached through a two-connector junction" : ""); }
 
 static void run(const vector<pair<int, int>> &shapePos, pair<int, int> jpos, const Cfg &c) {
     string desc = "terminals:"; for (auto &p : shapePos) desc += mcx::fmt(" (%d,%d)", p.first, p.second); desc += mcx::fmt(" junction cell (%d,%d) ", jpos.first, jpos.second) + cfg_str(c);
@@ -31,7 +31,7 @@ static void run(const vector<pair<int, int>> &shapePos, pair<int, int> jpos, con
         if (c.obstacle) { Rectangle r(Point(jpos.first * 20 + 6, jpos.second * 20 + 26), Point(jpos.first * 20 + 14, jpos.second * 20 + 34)); new ShapeRef(router, r); }
         set<unsigned> termShapes; for (auto s : shapes) termShapes.insert(s->id());
         JunctionRef *j = nullptr; vector<ConnRef *> starConns;
-        if (c.reg != 2) { j = new JunctionRef(router, Point(jpos.first * 20 + 10, jpos.second * 20 + 10)); size_t qi = 0; for (auto s : shapes) { ConnRef *cn = new ConnRef(router); if (c.mixed && (qi++ % 2)) { cn->setSourceEndpoint(ConnEnd(j)); cn->setDestEndpoint(ConnEnd(s, 1)); } else { cn->setSourceEndpoint(ConnEnd(s, 1)); cn->setDestEndpoint(ConnEnd(j)); } starConns.push_back(cn); } }
+        if (c.reg != 2) { j = new JunctionRef(router, Point(jpos.first * 20 + 10, jpos.second * 20 + 10)); size_t qi = 0; for (auto s : shapes) { ConnRef *cn = new ConnRef(router); if (c.mixed && (qi++ % 2)) { cn->setSourceEndpoint(ConnEnd(j)); cn->setDestEndpoint(ConnEnd(s, 1)); } else if (c.chain && s == shapes.back() && shapes.size() >= 3) { Point sp = s->position(); JunctionRef *j2c = new JunctionRef(router, Point((sp.x + jpos.first * 20 + 10) / 2 + 1, (sp.y + jpos.second * 20 + 10) / 2 + 1)); cn->setSourceEndpoint(ConnEnd(s, 1)); cn->setDestEndpoint(ConnEnd(j2c)); ConnRef *c2 = new ConnRef(router); c2->setSourceEndpoint(ConnEnd(j2c)); c2->setDestEndpoint(ConnEnd(j)); } else { cn->setSourceEndpoint(ConnEnd(s, 1)); cn->setDestEndpoint(ConnEnd(j)); } starConns.push_back(cn); } }
         router->processTransaction(); nTrans++;
         if (c.reg == 1) { router->hyperedgeRerouter()->registerHyperedgeForRerouting(j); router->processTransaction(); nTrans++; }
         if (c.reg == 2) { ConnEndList terms; for (auto s : shapes) terms.push_back(ConnEnd(s, 1)); router->hyperedgeRerouter()->registerHyperedgeForRerouting(terms); router->processTransaction(); nTrans++; }
@@ -144,6 +144,8 @@ int main(int argc, char **argv) {
     phase(3, 2, base, "all options, 3x3 grid"); phase(3, 3, small, "improve all, second transaction"); phase(4, 2, base, "all options, 3x3 grid");
     { vector<Cfg> mg; for (int mixed = 0; mixed < 2; mixed++) for (int heap = 1; heap <= 2; heap++) { Cfg c{0, 0, 3, 0, heap}; c.mixed = mixed; mg.push_back(c); Cfg d{0, 0, 1, 0, heap}; d.mixed = 1; mg.push_back(d); Cfg e{2, 1, 0, 0, heap}; e.mixed = 1; mg.push_back(e); }
       phase(3, 2, mg, "mixed connector orientation; delete all but two connectors, then removeJunctionAndMergeConnectors"); phase(4, 2, mg, "mixed connector orientation; delete all but two connectors, then removeJunctionAndMergeConnectors"); }
+    { vector<Cfg> ch; for (int opt = 0; opt <= 2; opt += 2) for (int heap = 1; heap <= 2; heap++) { Cfg c{opt, 1, 0, 0, heap}; c.chain = 1; ch.push_back(c); }
+      phase(3, 2, ch, "a two-connector junction on one arm of a hyperedge registered by junction"); phase(4, 2, ch, "a two-connector junction on one arm of a hyperedge registered by junction"); }
     if (T) { phase(3, 3, base, "all options"); vector<Cfg> ob; for (auto c : base) { c.obstacle = 1; if (c.opt != 1) ob.push_back(c); } phase(3, 2, ob, "with obstacle"); phase(4, 2, ob, "with obstacle"); phase(4, 3, base, "all options"); phase(5, 2, base, "all options, 3x3 grid"); phase(6, 2, base, "all options, 3x3 grid"); phase(5, 3, small, "improve all, second transaction, 4x4 grid"); }
     return ctx.finish();
 }
